@@ -49,6 +49,7 @@ OWNERS = [
     (r'dasp_signal::', 'C04'),
 ]
 OWNERS = [(re.compile(p), o) for p, o in OWNERS]
+IMPLICIT_TRAITS = ('core::ops::drop::Drop', 'core::ops::deref::Deref', 'core::ops::deref::DerefMut')
 NOT_SPECIFIC = re.compile(r'^(heap\.|dep\.|rms\.precision$|coverage\.)|inventory')
 
 
@@ -104,5 +105,22 @@ def check_uncovered(run, prop, loader, configs=('std-debug',)):
                 run.unproven('coverage.reference', p, cfg, 'no rule of this check describes this function, and its behaviour is not provably that of the reference '
                              'implementation any more (%s)' % why, where=(b.get('span') or '').split(':')[0] + ':' + str((b.get('span') or ':0').split(':')[1]) if b.get('span') else None)
         run.analysed['coverage.reference:%s' % cfg] = n
+        # a NEW impl of a trait that acts implicitly, on a type that already existed: `Drop` runs at every scope end, `Deref`
+        # reroutes method calls -- behaviour of existing code changes although no existing function did
+        meta = ref.get('#meta') or {}
+        ref_impls = {tuple(x) for x in meta.get('impls') or []}
+        if ref_impls:
+            for i in facts.impls:
+                tr = i.get('trait')
+                if tr not in IMPLICIT_TRAITS:
+                    continue
+                adt = facts.ty(i['self_ty']).get('path') or i['self_ty']
+                if adt not in (meta.get('adts') or {}) or (tr, adt) in ref_impls:
+                    continue
+                for it in i.get('items', []):
+                    fp = it.get('path')
+                    if fp and facts.body(fp) is not None and owner_of(fp if not fp.startswith('<') else fp) == prop:
+                        run.unproven('coverage.new-impl', fp, cfg, 'a new `impl %s for %s`: it acts on every value of an existing type without being called, '
+                                     'and no rule of this check describes it' % (tr.rsplit('::', 1)[-1], adt), where=(facts.body(fp).get('span') or None))
         if new:
             run.note('%d function(s) of this property\'s code are unknown to the reference tree (new API); they are covered only by the inventories' % new)
